@@ -38,6 +38,8 @@
 #define VP_INF_double (__builtin_inf())
 #define VP_INF_float (__builtin_inff())
 
+/* R21: end of the one arbitrary iteration of a loop with invariant `true` */
+#define VP_ITERATION_END __CPROVER_assume(0)
 /* R19 */
 extern int vp_one;
 
